@@ -52,22 +52,24 @@ def _long_line():
         lambda n: st.sampled_from(["x", "a=", ".", "250 "]).map(lambda p: (p + "y" * n)[:n]))
 
 
-def _data_lines():
+def _data_lines(long=True):
+    if not long:
+        return st.lists(_texts(), max_size=4)
     return st.lists(st.one_of(_texts(), _texts(), _texts(), _long_line()), max_size=5)
 
 
-def _part():
+def _part(long=True):
     return st.one_of(
         st.tuples(st.just("mid"), _texts()).map(list),
-        st.tuples(st.just("data"), _texts(), _data_lines()).map(list),
+        st.tuples(st.just("data"), _texts(), _data_lines(long)).map(list),
     )
 
 
-def replies(max_parts=5):
+def replies(max_parts=5, long=True):
     return st.builds(
         lambda code, parts, final: {"code": code, "parts": parts, "final": final},
         st.sampled_from([250, 250, 250, 251, 510, 512, 513, 515, 550, 551, 552, 553, 554, 555]),
-        st.lists(_part(), max_size=max_parts),
+        st.lists(_part(long), max_size=max_parts),
         _final_texts(),
     )
 
@@ -76,10 +78,10 @@ CMD_TEXTS = ["GETINFO version", "GETINFO ns/all", "GETCONF SocksPort", "SIGNAL N
              "GETINFO circuit-status", "FOO bar baz", "X"]
 
 
-def commands():
+def commands(long=True, max_parts=5):
     return st.builds(lambda k, t, r: {"kind": k, "text": t, "reply": r},
                      st.sampled_from(["plain", "plain", "lines"]),
-                     st.sampled_from(CMD_TEXTS), replies())
+                     st.sampled_from(CMD_TEXTS), replies(max_parts, long))
 
 
 def schedules():
